@@ -124,6 +124,31 @@ def biglist_cases(ctx):
     return cases
 
 
+def rawarg_cases():
+    """Lists with a command one of whose arguments renders itself verbatim and holds a line feed: the command cannot be built, so no
+    such list is ever sent; with harmless verbatim arguments the list is one batch like any other."""
+    cases = []
+    plain = [",".join([hexs("play"), hexs("3")]), ",".join([hexs("status")])]
+    for raw, ok in ((b"Artist\nclear", False), (b"\n", False), (b"x\ncommand_list_end", False), (b"a\nb\nc", False), (b"Artist", True), (b"x-y_z", True), (b"", True)):
+        bad = ",".join([hexs("list"), "~" + raw.hex()])
+        for how in ("add", "command", "extend"):
+            for shape in ([plain[0], bad, plain[1]], [bad, plain[0]], [plain[1], bad]):
+                cases.append((" ".join(["cmd_list", how] + shape), ok, len(shape)))
+    return cases
+
+
+def judge_rawarg(case, ok, n, out):
+    if not ok:
+        return None if out == "skip bad-spec" else f"a command with a verbatim argument holding a line feed was accepted into a list: {case} -> {out[:300]}"
+    if not out.startswith("len="):
+        return f"{case}: {out[:200]}"
+    kv = dict(x.split("=", 1) for x in out.split(" ") if "=" in x)
+    lines = bytes.fromhex(kv.get("bytes", "")).split(b"\n")
+    if lines[-1] != b"" or len(lines) - 1 != n + 2 or lines[0] != b"command_list_ok_begin" or lines[-2] != b"command_list_end":
+        return f"a list of {n} commands was written as {lines[:8]}"
+    return None
+
+
 def judge_biglist(case, out):
     _, how, n, size = case.split(" ")
     n = int(n)
@@ -176,8 +201,17 @@ def run(ctx, only=None):
     if only is not None and only and isinstance(only[0], str):
         import connlib
         big = [c for c in only if c.startswith("cmd_biglist")]
-        rest = [c for c in only if not c.startswith("cmd_biglist")]
+        lists = [c for c in only if c.startswith("cmd_list ")]
+        rest = [c for c in only if not c.startswith("cmd_biglist") and not c.startswith("cmd_list ")]
         bad = 0
+        for c, o in zip(lists, ctx.run_impl(lists)):
+            raw = [a[1:] for spec in c.split(" ")[2:] for a in spec.split(",") if a.startswith("~")]
+            ok = not any(b"\n" in bytes.fromhex(r) for r in raw)
+            print("case:", c, "\nimpl:", o)
+            m = judge_rawarg(c, ok, len(c.split(" ")) - 2, o)
+            if m:
+                bad += 1
+                print("VIOLATION property=C13 replay=(this case)", m)
         for c, o in zip(big, ctx.run_impl(big)):
             print("case:", c, "\nimpl:", o)
             if judge_biglist(c, o):
@@ -233,6 +267,11 @@ def run(ctx, only=None):
             m = judge_biglist(c, o)
             if m:
                 fails.append(Failure(c, m, extra={"plain": True}))
+        raws = rawarg_cases()
+        for (c, ok, n), o in zip(raws, ctx.run_impl([c for c, _, _ in raws])):
+            m = judge_rawarg(c, ok, n, o)
+            if m:
+                fails.append(Failure(c, m, extra={"plain": True}))
         inter = interrupted_list_cases(ctx)
         impl_i, model_i, dis_i = connlib.run_cases(ctx, [c for c, _ in inter])
         dis += dis_i
@@ -240,7 +279,7 @@ def run(ctx, only=None):
             outs = [x for x in o.split(" | ") if x != "io"]
             if outs != want:
                 fails.append(Failure(c, f"the reply to a list, its receive interrupted and retried: {connlib.describe(c)[:300]}\n  expected {' | '.join(want)[:300]}\n  got      {o[:400]}", extra={"plain": True}))
-        extra_n = len(big) + len(inter)
+        extra_n = len(big) + len(inter) + len(raws)
     return finish(
         ctx, evaluations=len(scheds) + extra_n, distinct_nontrivial=nontrivial + extra_n,
         rule="Client::command_list on Vec lists of every length 0..20 and tuple lists of every arity 1..8 (monomorphic instantiations in the harness) of "
@@ -255,7 +294,7 @@ def run(ctx, only=None):
 
 
 def replay(ctx, payload):
-    if payload.get("extra", {}).get("plain") or any(c.split(" ")[0] in ("recv", "cmd_biglist") for c in payload.get("cases", [])):
+    if payload.get("extra", {}).get("plain") or any(c.split(" ")[0] in ("recv", "cmd_biglist", "cmd_list") for c in payload.get("cases", [])):
         return run(ctx, only=list(payload.get("cases", [])))
     items = []
     inf = payload.get("extra", {}).get("info")
